@@ -38,9 +38,10 @@ def parse_ace_extended(line: str) -> DStr:  # pylint: disable=too-many-locals
     re_sequence = r"(\d+)?"
     re_action = f"{space}?(permit|deny)"
     re_proto = f"({space}{text})?"
-    re_srcaddr = f"{space}({addr})"
+    end = r"(?![\w-])"  # an address ends where its last word ends ("any" is not the start of "anytime")
+    re_srcaddr = f"{space}({addr}){end}"
     re_srcport = "( .+)?"
-    re_dstaddr = f"{space}({addr})"
+    re_dstaddr = f"{space}({addr}){end}"
     re_dstport = "( .+)?"
 
     regex = f"^{re_sequence}{re_action}{re_proto}{re_srcaddr}{re_srcport}{re_dstaddr}{re_dstport}"
